@@ -30,11 +30,11 @@ var modelPkgs = []string{"./models/...", "./util/...", "./data", "./conv/..."}
 
 var propSpecs = map[string]PropSpec{
 	"C01": {ID: "C01", Level: "proof", Patterns: []string{"./data/...", "./util/..."},
-		NotCovered: []string{"write footprints of ApplySlice and CopyFrom (not under contract)", "Slice with fewer extents than axes (used by the table-parameter wrappers)"}},
+		NotCovered: []string{"frame (cells outside the block unchanged) of ApplySlice and CopyFrom; their footprint is bounded by rank 3", "Slice with fewer extents than axes (used by the table-parameter wrappers)"}},
 	"C02": {ID: "C02", Level: "proof", Patterns: []string{"./data/...", "./util/..."},
-		NotCovered: []string{"ApplySlice, CopyFrom", "Reshape, ReshapeFast, MustReshape", "Maximum/Minimum methods of arrays", "whole-array helpers of data/arrayops.go (scale, add-to, apply-function)", "views with an extent of 0 (extents >= 1 are a precondition of the bulk contracts)"}},
+		NotCovered: []string{"ApplySlice, CopyFrom beyond rank 3 and their frame", "Reshape, ReshapeFast, MustReshape", "Maximum/Minimum methods of arrays", "whole-array helpers of data/arrayops.go (scale, add-to, apply-function)", "views with an extent of 0 (extents >= 1 are a precondition of the bulk contracts)"}},
 	"C03": {ID: "C03", Level: "proof", Patterns: []string{"./data/...", "./util/..."},
-		NotCovered: []string{"ApplySlice, CopyFrom, Reshape, ReshapeFast of the C back-end", "libopenwater.RunSingleModel (cgo entry point)"}},
+		NotCovered: []string{"Reshape, ReshapeFast of the C back-end; ApplySlice/CopyFrom beyond rank 3", "libopenwater.RunSingleModel (cgo entry point)"}},
 	"C04": {ID: "C04", Level: "proof", Patterns: modelPkgs},
 	"C05": {ID: "C05", Level: "other", Patterns: modelPkgs,
 		Explanation: "Partial: the goroutine-per-cell execution inside every generated Run is decided by sequential contracts plus the disjoint-footprint argument for fork/join parallelism: every write of cell i's goroutine body goes to cells of states[i,.] / outputs[i,.,.] or to memory allocated by that body (SMT-discharged frame obligations), everything captured from Run is read-only in the body, inputs and parameters are never written, and Run receives once per spawned goroutine before returning (structural join check). Under these no two goroutines have conflicting accesses, so every interleaving equals the sequential cell-by-cell order; the step from disjoint footprints to race freedom is a standard meta-theorem that is not mechanised (A-SEQ). The ow-sim half (goroutine per model, asynchronous writer) is not applicable: package main of cmd/ow-sim cannot be loaded or run here and the claim is about interleavings of a protocol.",
